@@ -77,7 +77,7 @@ def _main(s):
     if s["full"]:
         imp.insert(0, '"%s/pa"' % MOD)
         body.append("\tn, names, total := pa.GInfo()")
-        body.append('\tprintln("pa", pa.K, pa.A, len(pa.B), pa.SumB(), n, names, total)')
+        body.append('\tprintln("pa", pa.KV(), pa.A, len(pa.B), pa.SumB(), n, names, total)')
     return ("package main\n\nimport (\n" + "".join("\t%s\n" % i for i in imp) + ")\n\n"
             "const mainK = %d\n\nvar X = \"%s\"\n\n"
             "type local struct {\n\ta int\n\tb string\n}\n\n"
@@ -85,13 +85,13 @@ def _main(s):
             "func main() {\n"
             "\tprintln(\"main\", mainK)\n\tprintln(\"X\", X)\n" % (s["main_k"], s["x"])
             + "".join(b + "\n" for b in body) +
-            "\tprintln(\"pc\", pc.K, pc.Val(), pc.Hdr())\n"
+            "\tprintln(\"pc\", pc.KV(), pc.Val(), pc.Hdr())\n"
             "\tvar sh pg.Shape = local{mainK, \"loc\"}\n"
-            "\tprintln(\"pg\", pg.K, pg.Scale[int](3), pg.Get(pg.Box[int64]{V: 5}), pg.Total(sh), pg.Look(\"b\"), pg.Kind(sh), pg.Kind(pg.Sq{S: 1}))\n"
+            "\tprintln(\"pg\", pg.KV(), pg.Scale[int](3), pg.Get(pg.Box[int64]{V: 5}), pg.Total(sh), pg.Look(\"b\"), pg.Kind(sh), pg.Kind(pg.Sq{S: 1}))\n"
             "\tr := pg.Mix(pg.B4{A: 1, B: 2, C: 3, D: mainK}, 7)\n"
             "\tprintln(\"pgmix\", r.A, r.B, r.C, r.D)\n"
             "\tprintln(\"pd\", pd1.V(), pd1.S())\n"
-            "\tprintln(\"pt\", pt.T)\n"
+            "\tprintln(\"pt\", pt.TV())\n"
             "\tprintln(\"pr\", pr.Order(), pr.Sum())\n"
             "}\n")
 
@@ -101,6 +101,7 @@ def _pa(s):
             "//go:embed data/a.txt\nvar A string\n\n"
             "//go:embed data/b.bin\nvar B []byte\n\n"
             "//go:embed data/g/*.txt\nvar G embed.FS\n\n"
+            "func KV() int { return K }\n\n"
             "func SumB() int {\n\tt := 0\n\tfor _, c := range B {\n\t\tt += int(c)\n\t}\n\treturn t\n}\n\n"
             "func GInfo() (n int, names string, total int) {\n"
             "\tes, err := G.ReadDir(\"data/g\")\n\tif err != nil {\n\t\treturn -1, \"ERR\", 0\n\t}\n"
@@ -112,7 +113,7 @@ def _pc(s):
     return ("package pc\n\nimport _ \"unsafe\"\n\nconst LLGoFiles = \"wrap/c.c\"\n\nconst K = %d\n\n"
             "//go:linkname cval C.c13_val\nfunc cval() int32\n\n"
             "//go:linkname chdr C.c13_hdr\nfunc chdr() int32\n\n"
-            "func Val() int { return int(cval()) }\nfunc Hdr() int { return int(chdr()) }\n" % s["pc_k"])
+            "func KV() int  { return K }\nfunc Val() int { return int(cval()) }\nfunc Hdr() int { return int(chdr()) }\n" % s["pc_k"])
 
 
 def _c_c(s):
@@ -123,6 +124,7 @@ def _c_c(s):
 def _pg(s):
     return ("package pg\n\nconst K = %d\n\nconst mul = %d\n\n"
             "type Num interface{ ~int | ~int64 }\n\n"
+            "func KV() int { return K }\n\n"
             "func Scale[T Num](x T) T { return x*T(mul) + T(K) }\n\n"
             "type Box[T any] struct{ V T }\n\nfunc Get[T any](b Box[T]) T { return b.V }\n\n"
             "type Shape interface {\n\tArea() int\n\tName() string\n}\n\n"
@@ -177,6 +179,7 @@ def render(s):
         f["pd%d/pd%d.go" % (i, i)] = _pd(s, i)
     f["pt/on.go"] = "//go:build %s\n\npackage pt\n\nconst T = %d\n" % (TAG, s["pt_on"])
     f["pt/off.go"] = "//go:build !%s\n\npackage pt\n\nconst T = %d\n" % (TAG, s["pt_off"])
+    f["pt/pt.go"] = "package pt\n\nfunc TV() int { return T }\n"
     f["pr/pr.go"] = ("package pr\n\nvar order string\nvar sum int\n\n"
                      "func reg(tag string, v int) bool {\n\tif order != \"\" {\n\t\torder += \",\"\n\t}\n\torder += tag\n\tsum += v\n\treturn true\n}\n\n"
                      "func Order() string { return order }\nfunc Sum() int      { return sum }\n")
